@@ -22,6 +22,7 @@ type BlockSpec struct {
 	Parent  int    `json:"parent"`
 	Diff    uint32 `json:"diff"`
 	NTx     int    `json:"ntx"`
+	Big     int      `json:"big,omitempty"` // additional none-executor transactions with an 80 KB payload each (block data above 1 MiB)
 	Shared  []int  `json:"shared,omitempty"` // ids of shared transactions also used on other branches
 	Height  int64  `json:"height"`
 	Comment string `json:"c,omitempty"`
@@ -179,6 +180,17 @@ func Build(n *node.Node, spec TreeSpec, r *lib.Rng) (*Tree, error) {
 				}
 				tx = util.CreateCoinsTx(cfg, from, to, int64(r.Range(1, 50))*1e6)
 			}
+			txs = append(txs, tx)
+		}
+		for k := 0; k < s.Big; k++ {
+			p := make([]byte, 80000)
+			for j := range p {
+				p[j] = byte(r.U64())
+			}
+			tx := &types.Transaction{Execer: []byte("none"), Payload: p, Nonce: int64(r.U64() >> 2), To: address.ExecAddress("none"), ChainID: cfg.GetChainID()}
+			tx.Fee, _ = tx.GetRealFee(cfg.GetMinTxFeeRate())
+			tx.Fee += 2 * cfg.GetMinTxFeeRate()
+			tx.Sign(types.SECP256K1, node.GenesisKey())
 			txs = append(txs, tx)
 		}
 		for _, id := range s.Shared {
